@@ -242,4 +242,14 @@ theorem generate_ref_eq_spec (cfg : Cfg) (v : Variant) (hv : v.Valid) (o : Optio
         · rfl
         · rfl
 
+/-- The bucket array handed to `finalize` always has the variant's length (any input length). -/
+theorem bucketData_length_any (cfg : Cfg) (v : Variant) (hv : v.Valid) (data : List UInt8) :
+    (bucketData v (ideal (refStep cfg v) (initAcc cfg v) data)).length = v.buckets := by
+  unfold bucketData
+  rw [ideal_acc_ref cfg v hv data]
+  simp only [List.length_take, Array.length_toList]
+  rw [foldl_increment_size]
+  have := physBuckets_ge cfg hv
+  simp; omega
+
 end TlshVerif.Model
